@@ -6,7 +6,7 @@ import ast
 
 from ..core import Ctx, RuleResult, finding, short, walk_no_nested
 from ..model import AnalysisError, norm
-from ..rules import canv, inv
+from ..rules import canv, fresh, inv
 from ..rules.util import callee_name, calls_in, cfg_of, dotted, nodes_where, owner_map, renamed
 from ..tables import CANV_EXCEPTIONS, INV_EXCEPTIONS
 
@@ -269,6 +269,7 @@ def run(ctx: Ctx):
         inv.run_inv_monitored(p, "C06.1c", floor=6),
         canv.run_guard(p, "C06.2a", floor=9),
         canv.run_canv(p, "C06.2b", floor=35, exceptions=CANV_EXCEPTIONS),
+        fresh.run_fresh(p, "C06.2c", ["urwid.canvas"], floor=30),
         rule_cache_key(ctx),
         rule_listbox_body(ctx),
         rule_cascade(ctx),
